@@ -39,9 +39,11 @@ def kernel_post(args, res, specs):
     c = sym.ctx()
     m, n = cc.shape[0], J.shape[0]
     from pyvc import autoloops
-    info = autoloops.SUMMARY.get("sums", {}).get(("get_A_induced_numba.L3", "tmp"))
-    if info is None:
-        raise sym.Undecided("reduction summary of the innermost loop not found")
+    # the innermost loop is a reduction into ONE accumulator, whatever the local is called
+    accs = [v for (lab, _k), v in autoloops.SUMMARY.get("sums", {}).items() if lab == "get_A_induced_numba.L3"]
+    if len(accs) != 1:
+        raise sym.Undecided(f"reduction summary of the innermost loop not found ({len(accs)} accumulators)")
+    info = accs[0]
     i, k, j = SI(sym.FreshInt("i")), SI(sym.FreshInt("k")), SI(sym.FreshInt("j"))
     assume(i >= 0, i < m, k >= 0, k < 2, j >= 0, j < n)
     # the summand the code accumulates at (i, k, j) is the documented one: J[j,k] * a[j] / |c_i - r_j|
